@@ -15,19 +15,19 @@ import (
 )
 
 type JobDef struct {
-	Pkg      string             `json:"pkg"`
-	Entry    string             `json:"entry"`
-	Params   map[string]int64   `json:"params"`
-	Grid     map[string][]int64 `json:"grid"`
-	MaxSteps int64              `json:"max_steps"`
-	MaxDepth int                `json:"max_depth"`
-	MaxPaths int                `json:"max_paths"`
-	TimeoutS float64            `json:"timeout_s"`
-	Solver   string             `json:"solver"`
-	SolverTimeoutMs int         `json:"solver_timeout_ms"`
-	IncTimeoutMs    int         `json:"inc_timeout_ms"`
-	Samples  int                `json:"samples"`
-	Covers   []string           `json:"covers"` // cover points this job must reach
+	Pkg             string             `json:"pkg"`
+	Entry           string             `json:"entry"`
+	Params          map[string]int64   `json:"params"`
+	Grid            map[string][]int64 `json:"grid"`
+	MaxSteps        int64              `json:"max_steps"`
+	MaxDepth        int                `json:"max_depth"`
+	MaxPaths        int                `json:"max_paths"`
+	TimeoutS        float64            `json:"timeout_s"`
+	Solver          string             `json:"solver"`
+	SolverTimeoutMs int                `json:"solver_timeout_ms"`
+	IncTimeoutMs    int                `json:"inc_timeout_ms"`
+	Samples         int                `json:"samples"`
+	Covers          []string           `json:"covers"` // cover points this job must reach
 }
 
 type CheckSpec struct {
@@ -218,11 +218,11 @@ var knownOpenIDs []string
 func writeVector(path string, v *Violation) {
 	doc := map[string]interface{}{
 		"known_open": knownOpenIDs,
-		"entry":   v.Entry,
-		"params":  v.Params,
-		"values":  v.Values,
-		"choices": v.Choices,
-		"label":   v.Label,
+		"entry":      v.Entry,
+		"params":     v.Params,
+		"values":     v.Values,
+		"choices":    v.Choices,
+		"label":      v.Label,
 	}
 	b, _ := json.MarshalIndent(doc, "", " ")
 	os.WriteFile(path, b, 0o644)
@@ -547,6 +547,7 @@ func writeEvidence(root string, spec *CheckSpec, tier string, seed int64, P *Pro
 		solver.WallS += r.Solver.WallS
 		solver.Skipped += r.Solver.Skipped
 		solver.OneShot += r.Solver.OneShot
+		solver.Probed += r.Solver.Probed
 		solver.HardTimeouts += r.Solver.HardTimeouts
 		if r.Solver.MaxS > solver.MaxS {
 			solver.MaxS = r.Solver.MaxS
@@ -598,7 +599,7 @@ func writeEvidence(root string, spec *CheckSpec, tier string, seed int64, P *Pro
 	cov["path_space_exhausted_within_bounds"] = exhaustive
 	cov["interpreter_steps"] = steps
 	cov["solver"] = map[string]interface{}{"backend": "z3 5.1.0 (z3-new, one incremental process per job, push/pop); hard queries one-shot on z3 4.8.12, then cvc5 1.0", "queries": solver.Queries, "sat": solver.Sat, "unsat": solver.Unsat, "unknown": solver.Unknown, "errors": solver.Errors,
-		"answered_by_model_evaluation": solver.Skipped, "one_shot_fallbacks": solver.OneShot, "hard_timeouts": solver.HardTimeouts, "wall_s": round2(solver.WallS), "max_query_s": round2(solver.MaxS)}
+		"answered_by_model_evaluation": solver.Skipped, "one_shot_fallbacks": solver.OneShot, "unknown_resolved_by_concrete_probing": solver.Probed, "hard_timeouts": solver.HardTimeouts, "wall_s": round2(solver.WallS), "max_query_s": round2(solver.MaxS)}
 	cov["load_and_ssa_build_s"] = round2(loadS)
 	cov["jobs"] = jobSumm
 	cov["inconclusive"] = incon
